@@ -1,5 +1,12 @@
-import DiskfsModel.Model.Fat.Geom
-import DiskfsModel.Generated.Fat
+/-
+  HISTORICAL / AS-FOUND geometry lemmas.  Not imported by any Props file.
+  These are about `mkGeom32` (the FAT32 sectors-per-FAT formula before fix 911b8cc) and about the
+  FAT12 windows that `Create` refused / accepted before fix 15916a3; they case-split over the rows
+  of today's tables (`lookup12/16/32` hard-code the thresholds), which is why the property
+  theorems no longer depend on them: those are in Proofs/FatGeomP*.lean (parametric in the tables)
+  and Proofs/FatGeomGen.lean (instantiated by `decide`).
+-/
+import DiskfsModel.Proofs.FatGeomGen
 namespace Diskfs.Fat
 set_option linter.unusedSimpArgs false
 
@@ -23,65 +30,6 @@ theorem lookup16 (size : Nat) :
   by_cases h5 : size < 1073741825
   · simp [sizeTableLookup, Generated.Fat.fat16_spc_table, List.find?, h1, h2, h3, h4, h5]; omega
   · simp [sizeTableLookup, Generated.Fat.fat16_spc_table, List.find?, h1, h2, h3, h4, h5]; omega
-
-
-theorem u32_of_lt {x : Nat} (h : x < 4294967296) : u32 x = x := by
-  unfold u32; exact Nat.mod_eq_of_lt h
-theorem u16_of_lt {x : Nat} (h : x < 65536) : u16 x = x := by
-  unfold u16; exact Nat.mod_eq_of_lt h
-theorem sub32_of_le {a b : Nat} (hb : b ≤ a) (ha : a < 4294967296) : sub32 a b = a - b := by
-  unfold sub32; omega
-
-theorem ite_none_eq_some {α : Type} {c : Prop} [Decidable c] {x : Option α} {g : α} :
-    (if c then none else x) = some g ↔ ¬ c ∧ x = some g := by
-  split <;> simp [*]
-
-theorem u16_lt (x : Nat) : u16 x < 65536 := by unfold u16; omega
-
-theorem mkGeom16_wf (size : Nat) (g : Geom)
-    (h : mkGeom16 Generated.Fat.fat16_spc_table size = some g) :
-    g.WF size ∧ g.kind = .f16 ∧ 4085 ≤ g.clusters ∧ g.clusters < 65525 := by
-  unfold mkGeom16 at h
-  have hrds : (512 * 32 + 511) / 512 = 32 := by decide
-  simp only [hrds, GB, ite_none_eq_some, Option.some.injEq] at h
-  obtain ⟨hhi, hlo, c1, c2, rfl⟩ := h
-  have hts : u32 (size / 512) = size / 512 := u32_of_lt (by omega)
-  rw [hts] at c1 c2 ⊢
-  have hT1 : 512 * (size / 512) ≤ size := by omega
-  have hT2 : size < 512 * (size / 512) + 512 := by omega
-  have hT3 : 8 ≤ size / 512 := by omega
-  have hT4 : size / 512 ≤ 4194304 := by omega
-  generalize size / 512 = ts at *
-  rcases lookup16 size with ⟨hb, hl⟩ | ⟨ha, hb, hl⟩ | ⟨ha, hb, hl⟩ | ⟨ha, hb, hl⟩ | ⟨ha, hb, hl⟩ | ⟨ha, hl⟩ <;>
-  ( rw [hl] at c1 c2 ⊢
-    simp only [u8, Nat.reduceMod] at c1 c2 ⊢
-    by_cases h36 : ts < 36
-    · exfalso
-      have hs := u16_lt (sub32 (u32 (u32 ((sub32 (sub32 ts 4) 32 / 2 + 2) * 2) + 512)) 1 / 512)
-      generalize u16 (sub32 (u32 (u32 ((sub32 (sub32 ts 4) 32 / 2 + 2) * 2) + 512)) 1 / 512) = s at *
-      simp only [u32, sub32] at c1
-      omega
-    · have e1 : sub32 (sub32 ts 4) 32 = ts - 36 := by simp only [sub32]; omega
-      rw [e1] at c1 c2 ⊢
-      have e2 : ∀ nc, nc ≤ 4194304 →
-          u16 (sub32 (u32 (u32 ((nc + 2) * 2) + 512)) 1 / 512) = (nc * 2 + 515) / 512 := by
-        intro nc hnc
-        simp only [u16, u32, sub32]; omega
-      rw [e2 _ (by omega)] at c1 c2 ⊢
-      have hspf : (ts - 36) / 512 ≤ ((ts - 36) / 2 * 2 + 515) / 512 := by omega
-      generalize hS : ((ts - 36) / _ * 2 + 515) / 512 = spf at *
-      have hspf1 : 1 ≤ spf := by omega
-      have hspf2 : spf ≤ 8193 := by omega
-      have e3 : u32 (2 * spf) = 2 * spf := u32_of_lt (by omega)
-      rw [e3] at c1 c2
-      by_cases hw : 2 * spf ≤ ts - 36
-      · have e4 : sub32 (ts - 36) (2 * spf) = ts - 36 - 2 * spf := by simp only [sub32]; omega
-        rw [e4] at c1 c2
-        refine ⟨⟨?_, ?_, ?_, ?_, ?_, ?_⟩, ?_, ?_, ?_⟩ <;>
-          simp only [Geom.rootSectors, Geom.dataSectors, Geom.clusters, Geom.fatEntries, Geom.dataStart] <;> omega
-      · exfalso
-        simp only [sub32] at c1
-        omega )
 
 
 /-! ### FAT12 -/
@@ -169,77 +117,6 @@ theorem mkGeom12_window_refused (size : Nat) (h1 : 5120 ≤ size) (h2 : size < 5
   rw [if_neg (by simp only [MB]; omega), if_neg (by omega)]
   simp only [hl, hts, if_pos hk]
   decide
-
-theorem mkGeom12_wf_of_ge (size : Nat) (g : Geom) (hmin : 5632 ≤ size)
-    (h : mkGeom12 Generated.Fat.fat12_spc_table size = some g) :
-    g.WF size ∧ g.kind = .f12 ∧ g.clusters < 4085 := by
-  unfold mkGeom12 at h
-  simp only [ite_none_eq_some, Option.some.injEq] at h
-  obtain ⟨hhi, hlo, c1, -, rfl⟩ := h
-  simp only [MB] at hhi
-  have hts : u32 (size / 512) = size / 512 := u32_of_lt (by omega)
-  rw [hts] at c1 ⊢
-  have hT1 : 512 * (size / 512) ≤ size := by omega
-  have hT2 : size < 512 * (size / 512) + 512 := by omega
-  have hT3 : 11 ≤ size / 512 := by omega
-  have hT4 : size / 512 ≤ 262144 := by omega
-  have hT5 : 524288 < size → 1024 ≤ size / 512 := by omega
-  generalize size / 512 = ts at *
-  have hre : ∃ re, (if size ≤ 512 * KB then 112 else 224) = re ∧
-      ((re = 112 ∧ size ≤ 524288) ∨ (re = 224 ∧ 524288 < size)) := by
-    by_cases hk : size ≤ 512 * KB
-    all_goals have hk' := hk
-    all_goals simp only [KB] at hk'
-    · exact ⟨112, if_pos hk, Or.inl ⟨rfl, by omega⟩⟩
-    · exact ⟨224, if_neg hk, Or.inr ⟨rfl, by omega⟩⟩
-  obtain ⟨re, hre, hre'⟩ := hre
-  rw [hre] at c1 ⊢
-  rcases hre' with ⟨rfl, hk⟩ | ⟨rfl, hk⟩ <;>
-  rcases lookup12 size with ⟨hb, hl⟩ | ⟨ha, hb, hl⟩ | ⟨ha, hb, hl⟩ | ⟨ha, hb, hl⟩ | ⟨ha, hb, hl⟩ | ⟨ha, hb, hl⟩ | ⟨ha, hl⟩ <;>
-  first
-  | omega
-  | ( rw [hl] at c1 ⊢
-      simp only [u8, Nat.reduceMod, Nat.reduceMul, Nat.reduceAdd, Nat.reduceDiv] at c1 ⊢
-      have e1 : ∀ r, r ≤ 14 → 1 + r ≤ ts → sub32 (sub32 ts 1) r = ts - 1 - r := by
-        intro r h1 h2; simp only [sub32]; omega
-      rw [e1 _ (by omega) (by omega)] at c1 ⊢
-      generalize hD : ts - 1 - _ = D at c1 ⊢
-      have e2 : ∀ nc, nc ≤ 262144 →
-          u16 (sub32 (u32 (u32 (u32 ((nc + 2) * 3) / 2 + 1) + 512)) 1 / 512)
-            = ((nc + 2) * 3 / 2 + 512) / 512 := by
-        intro nc hnc
-        rw [u32_of_lt (x := (nc + 2) * 3) (by omega), u32_of_lt (x := (nc + 2) * 3 / 2 + 1) (by omega),
-          u32_of_lt (x := (nc + 2) * 3 / 2 + 1 + 512) (by omega), sub32_of_le (by omega) (by omega),
-          u16_of_lt (by omega)]
-        omega
-      rw [e2 _ (by omega)] at c1 ⊢
-      have e5 : ∀ nc s, ((nc + 2) * 3 / 2 + 512) / 512 = s → nc + 2 ≤ s * 512 * 2 / 3 := by
-        intro nc s hs; omega
-      generalize hS : ((_ / _ + 2) * 3 / 2 + 512) / 512 = spf at *
-      have hfat := e5 _ _ hS
-      have hspf1 : 1 ≤ spf := by omega
-      have hspf2 : spf ≤ 769 := by omega
-      have e3 : u32 (2 * spf) = 2 * spf := u32_of_lt (by omega)
-      rw [e3] at c1
-      by_cases hw : 2 * spf ≤ D
-      · have e4 := sub32_of_le hw (by omega)
-        rw [e4] at c1
-        refine ⟨⟨?_, ?_, ?_, ?_, ?_, ?_⟩, ?_, ?_⟩ <;>
-          simp only [Geom.rootSectors, Geom.dataSectors, Geom.clusters, Geom.fatEntries, Geom.dataStart] <;> omega
-      · exfalso
-        simp only [sub32] at c1
-        omega )
-
-/-- FAT12 geometry is well formed for every size `Create` accepts (no lower bound needed any more:
-    below 5632 bytes `Create` refuses) -/
-theorem mkGeom12_wf (size : Nat) (g : Geom)
-    (h : mkGeom12 Generated.Fat.fat12_spc_table size = some g) :
-    g.WF size ∧ g.kind = .f12 ∧ g.clusters < 4085 := by
-  by_cases hs : size < 5120
-  · rw [mkGeom12_tiny_none size hs] at h; cases h
-  by_cases hw : size < 5632
-  · rw [mkGeom12_window_refused size (by omega) hw] at h; cases h
-  · exact mkGeom12_wf_of_ge size g (by omega) h
 
 /-! ### FAT32 -/
 
@@ -332,151 +209,10 @@ theorem mkGeom32_wf_256 (size bs : Nat) (g : Geom) (hmax : size ≤ 256 * GB)
     g.WF size ∧ g.kind = .f32 :=
   mkGeom32_wf size bs g (Or.inl (by simp only [GB] at hmax; omega)) h hfat
 
-/-- smallest 512-byte-sector size with a short FAT: 161 sectors, 1 FAT sector = 128 entries,
-    127 clusters (129 entries needed) -/
-theorem cex_mkGeom32_fat_short :
-    (mkGeom32 Generated.Fat.fat32_clusterBytes_table 82432 512).map
-      (fun g => (g.fatSectors, g.fatEntries, g.clusters)) = some (1, 128, 127) := by decide
-
-/-- same with 4096-byte sectors: 1057 sectors, 1024 entries, 1023 clusters -/
-theorem cex_mkGeom32_fat_short_4k :
-    (mkGeom32 Generated.Fat.fat32_clusterBytes_table 4329472 4096).map
-      (fun g => (g.fatSectors, g.fatEntries, g.clusters)) = some (1, 1024, 1023) := by decide
-
-/-- not isolated: for every k in 1..4095 all 512 sizes with 32 + 130·k sectors (512-byte sectors, one
-    sector per cluster, i.e. up to 260 MiB) get a FAT of k sectors = 128·k entries for 128·k clusters -/
-theorem mkGeom32_fat_short_family (k r : Nat) (hk1 : 1 ≤ k) (hk2 : k ≤ 4095) (hr : r < 512) :
-    mkGeom32 Generated.Fat.fat32_clusterBytes_table ((32 + 130 * k) * 512 + r) 512
-      = some ⟨.f32, 512, 1, 32, k, 0, 32 + 130 * k⟩ := by
-  have hl : sizeTableLookup Generated.Fat.fat32_clusterBytes_table ((32 + 130 * k) * 512 + r) = 512 := by
-    rcases lookup32 ((32 + 130 * k) * 512 + r) with ⟨_, hl⟩ | ⟨_, _, _⟩ | ⟨_, _, _⟩ | ⟨_, _, _⟩ | ⟨_, _⟩ <;>
-      first | exact hl | omega
-  have hts : ((32 + 130 * k) * 512 + r) / 512 = 32 + 130 * k := by omega
-  unfold mkGeom32
-  simp only [ite_none_eq_some, hl, hts, Option.some.injEq, u8, Nat.reduceDiv, Nat.reduceMod,
-    Nat.reduceEqDiff, ↓reduceIte]
-  have e0 : u32 (32 + 130 * k) = 32 + 130 * k := u32_of_lt (by omega)
-  have ed : u32 (u32 512 * 1 + 8) = 520 := by decide
-  rw [e0, ed, sub32_of_le (a := 32 + 130 * k) (b := 32) (by omega) (by omega),
-    spf32_eq 520 (32 + 130 * k - 32) (by omega) (by omega) (by omega) (by omega)]
-  have es : (4 * (32 + 130 * k - 32) + 520 - 1) / 520 = k := by omega
-  rw [es]
-  refine ⟨by decide, by simp only [fat32MaxSize]; omega, by omega, by omega, ?_, ?_, rfl⟩
-  · simp only [u32]; omega
-  · simp only [KB]; omega
-
-theorem mkGeom32_fat_short_family' (k r : Nat) (hk1 : 1 ≤ k) (hk2 : k ≤ 4095) (hr : r < 512) :
-    (mkGeom32 Generated.Fat.fat32_clusterBytes_table ((32 + 130 * k) * 512 + r) 512).map
-      (fun g => (g.fatEntries, g.clusters)) = some (128 * k, 128 * k) := by
-  rw [mkGeom32_fat_short_family k r hk1 hk2 hr]
-  simp only [Option.map, Geom.fatEntries, Geom.clusters, Geom.dataSectors, Geom.rootSectors,
-    Option.some.injEq, Prod.mk.injEq]
-  omega
-/-- above 256 GiB (512-byte sectors) the uint16 `sectorsPerFat` wraps -/
-theorem cex_mkGeom32_300GiB :
-    (mkGeom32 Generated.Fat.fat32_clusterBytes_table (300 * GB) 512).map
-      (fun g => decide (g.fatEntries < g.clusters + 2)) = some true := by decide
-
 /-- the bound in `mkGeom32_wf` is the exact one: one byte more and `sectorsPerFat` wraps to 0 -/
 theorem cex_mkGeom32_bound_tight :
     (mkGeom32 Generated.Fat.fat32_clusterBytes_table 274940837376 512).map
       (fun g => (g.fatSectors, decide (g.fatEntries < g.clusters + 2))) = some (0, true) := by decide
 
-/-! ### the repaired FAT32 sizing (`mkGeom32Fixed` in the model): `8·spc` added to the numerator,
-     i.e. two more entries -/
-
-theorem spf32fix_eq (d x e : Nat) (hd : 0 < d) (hd2 : d ≤ 40000) (he : e ≤ 512) (hx : x ≤ 536993790)
-    (hlt : 4 * x + e + d - 1 < 65536 * d) :
-    u16 (sub32 (u32 (u32 (u32 (4 * x) + e) + d)) 1 / d) = (4 * x + e + d - 1) / d := by
-  rw [u32_of_lt (x := 4 * x) (by omega), u32_of_lt (x := 4 * x + e) (by omega),
-    u32_of_lt (x := 4 * x + e + d) (by omega), sub32_of_le (by omega) (by omega), u16_of_lt]
-  exact (Nat.div_lt_iff_lt_mul hd).mpr hlt
-
-set_option hygiene false in
-macro "geom32fix_block" B:num : tactic => `(tactic| (
-  have hT0 : size / $B < 4294967296 := by omega
-  rw [u32_of_lt hT0] at c1 c2 c3 ⊢
-  have hT1 : $B * (size / $B) ≤ size := by omega
-  have hT2 : size < $B * (size / $B) + $B := by omega
-  have hT3 : 32 ≤ size / $B := by omega
-  generalize size / $B = ts at *
-  rcases lookup32 size with ⟨hr2, hl⟩ | ⟨hr1, hr2, hl⟩ | ⟨hr1, hr2, hl⟩ | ⟨hr1, hr2, hl⟩ | ⟨hr1, hl⟩ <;>
-  ( rw [hl] at c1 c2 c3 ⊢
-    simp only [u8, Nat.reduceDiv, Nat.reduceMod, Nat.reduceEqDiff, ↓reduceIte] at c1 c2 c3 ⊢
-    generalize hd : u32 (u32 _ * _ + 8) = d at c1 c2 c3 ⊢
-    simp only [u32, Nat.reduceMod, Nat.reduceMul, Nat.reduceAdd] at hd
-    generalize he : u32 (8 * _) = e at c1 c2 c3 ⊢
-    simp only [u32, Nat.reduceMod, Nat.reduceMul] at he
-    rw [sub32_of_le hT3 (by omega)] at c1 c2 c3 ⊢
-    rw [spf32fix_eq d (ts - 32) e (by omega) (by omega) (by omega) (by omega) (by omega)] at c1 c2 c3 ⊢
-    subst hd
-    subst he
-    simp only [u32] at c2
-    simp only [KB] at c3
-    refine ⟨⟨?_, ?_, ?_, ?_, ?_, ?_⟩, ?_⟩ <;>
-      (try simp only [Geom.rootSectors, Geom.dataSectors, Geom.clusters, Geom.fatEntries, Geom.dataStart]) <;>
-      first | trivial | omega )))
-
-/-- with the repaired formula the full `WF` (including `fat_holds`) holds.  The bound for 512-byte
-    sectors is again the exact one (`mkGeom32Fixed_bound_tight`): 274940771839 = 256.06 GiB, slightly
-    below the bound of the old formula because the FAT is up to one sector longer. -/
-theorem mkGeom32Fixed_wf (size bs : Nat) (g : Geom)
-    (hmax : size ≤ 274940771839 ∨ bs = 4096)
-    (h : mkGeom32Fixed Generated.Fat.fat32_clusterBytes_table size bs = some g) :
-    g.WF size ∧ g.kind = .f32 := by
-  unfold mkGeom32Fixed at h
-  simp only [ite_none_eq_some, Option.some.injEq] at h
-  obtain ⟨hbs, hhi, hlo, c1, c2, c3, rfl⟩ := h
-  simp only [fat32MaxSize] at hhi
-  have hb : ∃ b, (if bs = 0 then 512 else bs) = b ∧ ((b = 512 ∧ bs ≠ 4096) ∨ (b = 4096 ∧ bs = 4096)) := by
-    by_cases h0 : bs = 0
-    · exact ⟨512, if_pos h0, Or.inl ⟨rfl, by omega⟩⟩
-    · refine ⟨bs, if_neg h0, ?_⟩; omega
-  obtain ⟨b, hb, hb'⟩ := hb
-  rw [hb] at hlo c1 c2 c3 ⊢
-  rcases hb' with ⟨rfl, hne⟩ | ⟨rfl, rfl⟩
-  · geom32fix_block 512
-  · geom32fix_block 4096
-
-theorem mkGeom32Fixed_bound_tight :
-    (mkGeom32Fixed Generated.Fat.fat32_clusterBytes_table 274940771840 512).map
-      (fun g => (g.fatSectors, decide (g.fatEntries < g.clusters + 2))) = some (0, true) := by decide
-
-/-- the two sizes that were short before are fine now -/
-theorem mkGeom32Fixed_values :
-    (mkGeom32Fixed Generated.Fat.fat32_clusterBytes_table 82432 512).map
-      (fun g => (g.fatSectors, g.fatEntries, g.clusters)) = some (2, 256, 125) := by decide
-
-/-! ### the FAT sizing used before "fix: fat12/fat16: size the FAT for the two reserved entries" -/
-
-def mkGeom12Old (tbl : List (Nat × Nat)) (size : Nat) : Option Geom :=
-  if size > 128 * MB then none
-  else if size < 512 * 4 then none
-  else
-    let ts := u32 (size / 512)
-    let spc := u8 (sizeTableLookup tbl size)
-    let rootEntries := if size ≤ 512 * KB then 112 else 224
-    let rds := (rootEntries * 32 + 511) / 512
-    let ds := sub32 (sub32 ts 1) rds
-    let nc := ds / spc
-    let spf := u16 (sub32 (u32 (u32 (u32 (nc * 3) / 2) + 512)) 1 / 512)
-    let ds2 := sub32 (sub32 (sub32 ts 1) rds) (u32 (2 * spf))
-    let nc2 := ds2 / spc
-    if nc2 ≥ 4085 then none
-    else some ⟨.f12, 512, spc, 1, spf, rootEntries, ts⟩
-
-/-- 32 MiB + 512: the old sizing gives 2048 FAT entries for 2047 clusters (2049 needed) -/
-theorem cex_fatsize_old :
-    (mkGeom12Old Generated.Fat.fat12_spc_table 33554944).map
-      (fun g => decide (g.fatEntries < g.clusters + 2)) = some true := by decide
-
-theorem cex_fatsize_old_values :
-    (mkGeom12Old Generated.Fat.fat12_spc_table 33554944).map
-      (fun g => (g.fatEntries, g.clusters + 2)) = some (2048, 2049) := by decide
-
-/-- the current sizing at the same size -/
-theorem fatsize_new_values :
-    (mkGeom12 Generated.Fat.fat12_spc_table 33554944).map
-      (fun g => (g.fatEntries, g.clusters + 2)) = some (2389, 2049) := by decide
 
 end Diskfs.Fat
